@@ -321,30 +321,48 @@ func checkWholeFileSendsAll(p *Prog, r *Report) {
 	}
 	// the data write
 	var dataW, lenW, endW ssa.CallInstruction
-	allCalls(sf, func(c ssa.CallInstruction) {
-		if c.Common().IsInvoke() && c.Common().Method.Name() == "Write" {
-			if sl, ok := unwrapLocal(c.Common().Args[0]).(*ssa.Slice); ok && sameCore(sl.X, buf) && sl.Low == nil && sl.High != nil && nV != nil && derivesFrom(stripConv(sl.High), nV) {
+	gg := p.ModGraph()
+	// isChunk: v is buf[:n] of the buffer the Read filled, directly or as the parameter of a per-chunk helper
+	isChunk := func(v ssa.Value) bool {
+		cands := []ssa.Value{unwrapLocal(v)}
+		if _, isP := cands[0].(*ssa.Parameter); isP {
+			cands = gg.paramRoots(cands[0], 0)
+		}
+		if len(cands) == 0 {
+			return false
+		}
+		for _, cv := range cands {
+			sl, ok := unwrapLocal(cv).(*ssa.Slice)
+			if !ok || !sameCore(sl.X, buf) || sl.Low != nil || sl.High == nil || nV == nil || !derivesFrom(stripConv(sl.High), nV) {
+				return false
+			}
+		}
+		return true
+	}
+	for _, u := range gg.unitFuncs(sf) {
+		allCalls(u, func(c ssa.CallInstruction) {
+			if c.Common().IsInvoke() && c.Common().Method.Name() == "Write" && isChunk(c.Common().Args[0]) {
 				dataW = c
 			}
-		}
-		if calleeName(c) == "(*"+pkgWire+".Conn).WriteInt32" {
-			a := c.Common().Args[1]
-			if k, ok := constInt(a); ok && k == 0 {
-				endW = c
-				return
-			}
-			if lc, ok := stripConv(a).(*ssa.Call); ok {
-				if bi, ok := lc.Common().Value.(*ssa.Builtin); ok && bi.Name() == "len" {
-					if sl, ok := unwrapLocal(lc.Common().Args[0]).(*ssa.Slice); ok && sameCore(sl.X, buf) {
+			if calleeName(c) == "(*"+pkgWire+".Conn).WriteInt32" {
+				a := c.Common().Args[1]
+				if k, ok := constInt(a); ok && k == 0 {
+					if u == sf {
+						endW = c
+					}
+					return
+				}
+				if lc, ok := stripConv(a).(*ssa.Call); ok {
+					if bi, ok := lc.Common().Value.(*ssa.Builtin); ok && bi.Name() == "len" && isChunk(lc.Common().Args[0]) {
 						lenW = c
 					}
+				} else if nV != nil && u == sf && derivesFrom(stripConv(a), nV) {
+					lenW = c
 				}
-			} else if nV != nil && derivesFrom(stripConv(a), nV) {
-				lenW = c
 			}
-		}
-	})
-	r.Cond(dataW != nil && lenW != nil && InstrDominates(lenW, dataW), rule, "chunk = buf[:n] written after its length", p.Pos(instrPos(rd)), "the chunk written is not the slice of the read buffer up to the count Read returned, or its length does not precede it")
+		})
+	}
+	r.Cond(dataW != nil && lenW != nil && lenW.Parent() == dataW.Parent() && InstrDominates(lenW, dataW), rule, "chunk = buf[:n] written after its length", p.Pos(instrPos(rd)), "the chunk written is not the slice of the read buffer up to the count Read returned, or its length does not precede it")
 	if endW == nil && sf != entry {
 		allCalls(entry, func(c ssa.CallInstruction) {
 			if calleeName(c) == "(*"+pkgWire+".Conn).WriteInt32" {
